@@ -6,7 +6,7 @@ import puan.modules.configurator as cc
 from common import *
 from plogio import *
 
-RULE = ("configurators over 1-4 rules (cc.Any / cc.Xor with and without defaults, plain Any/Xor/AtMost/All/AtLeast, Imply rules; explicit and "
+RULE = ("configurators over 0-4 rules (an empty configurator is a legal start of an add() chain) (cc.Any / cc.Xor with and without defaults, plain Any/Xor/AtMost/All/AtLeast, Imply rules; explicit and "
         "generated rule ids and configurator ids) x sequences of 1-3 added rules; the add() chain is compared with direct construction "
         "StingyConfigurator(*old_rules, *new_rules, id=old.id) on: full structure (classes, ids, generated flags, defaults, prio tags), "
         "default_prios, ge_polyhedron (matrix, variables, default_prio_vector), objective vectors seen by a recording solver in select(); "
@@ -100,6 +100,8 @@ def run(res, tier, seed):
             direct = build(direct_ast)
         bcases.append((lambda it, a=direct_ast, m=direct, orc=orc: f"({orc.term(it)}, {form_term(a, it)}, {dump(m, it)})", (direct_ast,)))
         # rejection: re-adding an existing top-level rule id must raise; the model must return None
+        if not cfg0.propositions:
+            res.count("empty_start"); res.sample({"config": repr(cfg0), "adds": [repr(x) for x in built_adds]}); continue
         victim = rng.choice(cfg0.propositions)
         clash_ast = g.simple(force_id=True); clash_ast["id"] = victim.id
         try:
